@@ -261,9 +261,10 @@ func TestVerifC05(t *testing.T) {
 	defer failpoint.Disable("tikvclient/fastBackoffBySkipSleep")
 	seed := vrep.Seed()
 	nMock, nUni := vrep.Pick(150, 1500), vrep.Pick(70, 700)
+	nEarlyMock, nEarlyUni := vrep.Pick(70, 700), vrep.Pick(35, 350)
 	if s := os.Getenv("VERIF_C05_N"); s != "" {
 		if v, err := strconv.Atoi(s); err == nil {
-			nMock, nUni = v, v/2
+			nMock, nUni, nEarlyMock, nEarlyUni = v, v/2, v/2, v/4
 		}
 	}
 	only := os.Getenv("VERIF_C05_ONLY") // "mocktikv" | "unistore" | "<backend>:<history seed>" (with a VERIF_C05_N / tier that includes it)
@@ -290,6 +291,23 @@ func TestVerifC05(t *testing.T) {
 	}
 	run(uni.Mock, 0, nMock)
 	run(uni.Uni, 500000, nUni)
+	// the "early look" family: S's resolver looks at T in an intermediate state, T moves on, reads through S
+	runEarly := func(backend string, base int64, n int) {
+		for i := 0; i < n; i++ {
+			id++
+			hs := seed*1000003 + base + int64(i)
+			if only != "" && !strings.HasPrefix(fmt.Sprintf("%s-early:%d", backend, hs), only) {
+				continue
+			}
+			t.Logf("history %d %s-early seed=%d", id, backend, hs)
+			runEarlyLook(t, r, id, backend, hs)
+			if id%10 == 0 {
+				r.Flush()
+			}
+		}
+	}
+	runEarly(uni.Mock, 800000, nEarlyMock)
+	runEarly(uni.Uni, 900000, nEarlyUni)
 	t.Logf("wall %v", time.Since(t0))
 	if only == "" && os.Getenv("VERIF_C05_N") == "" {
 		// a run that did not see these things must not count as "held"
@@ -318,6 +336,15 @@ func TestVerifC05(t *testing.T) {
 		r.Floor("multi_request:iter", 500)
 		r.Floor("multi_request:iterrev", 500)
 		r.Floor("txn_outcomes_checked", 1000)
+		r.Floor("early:histories", 80)
+		r.Floor("early:state:"+stateNames[stOrphanPess], 15)
+		r.Floor("early:state:"+stateNames[stPessOnly], 8)
+		r.Floor("early:state:"+stateNames[stPrewrittenHeartbeat], 8)
+		r.Floor("early:look:"+lookNames[lookPessLock], 15)
+		r.Floor("early:look:"+lookNames[lookOptimisticWrite], 15)
+		r.Floor("early:look:"+lookNames[lookReader], 15)
+		r.Floor("early:look:"+lookNames[lookGC], 3)
+		r.Floor("early:committed-with-leftover-secondary-locks", 25)
 	}
 	// stable order of the counters that name lock classes (for the log)
 	var names []string
